@@ -66,7 +66,7 @@ func VerifC16Index() {
 	v, s := verifC16array(rt.Param("n"))
 	n := len(v)
 	key, k := verifC16key("index", rt.Param("digits"))
-	rt.KnownFinding("C16-index-below-minus-n", verifC16belowMinusN(k, n))
+	verifC16known(verifC16belowMinusN(k, n))
 	p := verifC16proc(false)
 	var marshalled []any
 	obj := any(v)
@@ -101,7 +101,7 @@ func VerifC16Multi() {
 	n := len(v)
 	key1, k1 := verifC16key("index1", rt.Param("digits"))
 	key2, k2 := verifC16key("index2", rt.Param("digits"))
-	rt.KnownFinding("C16-index-below-minus-n", rt.Or(verifC16belowMinusN(k1, n), verifC16belowMinusN(k2, n)))
+	verifC16known(rt.Or(verifC16belowMinusN(k1, n), verifC16belowMinusN(k2, n)))
 	p := verifC16proc(false)
 	var marshalled []any
 	obj := any(v)
@@ -179,7 +179,7 @@ func VerifC16Element() {
 // The statement only speaks about keys that are in the map; for other keys the only demand
 // is the absence of a panic.
 func VerifC16Map() {
-	pool := []string{"a", "A", "b", "ab", "Ab", "AB", "0", "-1"}
+	pool := []string{"a", "A", "ab", "AB", "Ab", "b", "0", "-1"}[:rt.Param("keys")]
 	m := map[string]any{}
 	vals := map[string]string{}
 	for _, k := range pool {
@@ -246,3 +246,6 @@ func VerifC16Not() {
 		rt.Assert(err.Error() != "", "![k] failed without an error message")
 	}
 }
+
+// verifC16known marks the inputs of the finding C16-index-below-minus-n (`[k]` with k < -n).
+func verifC16known(pred bool) { rt.KnownFinding("C16-index-below-minus-n", pred) }
